@@ -2,7 +2,7 @@ package main
 
 func init() {
 	register(PropSpec{ID: "C24", Harnesses: []HarnessSpec{
-		{Name: "fetcher", Pkg: "internal/fetcher", Files: []string{"fetcher/c24_fetcher.go"}, Entry: "VerifC24", Sched: true, Preempt: [2]int{1, 1},
+		{Name: "fetcher", Pkg: "internal/fetcher", Files: []string{"fetcher/c24_fetcher.go"}, Entry: "VerifC24", Sched: true, Preempt: [2]int{1, 2},
 			Reach:       []string{"get-ok", "read-error-reported"},
 			Assumptions: []string{"Fetch is called from one goroutine in block order and Get(txID) from another goroutine after that transaction's Fetch returned (the call pattern of Processor.executeTxs)", "a transaction ID that occurs twice denotes the same transaction, hence the same key set", "goroutines switch only at synchronisation operations: sound for data-race-free code"},
 			Outside:     []string{"the chain metadata keys (read by Processor outside the fetcher)", "more transactions/keys/fetch workers than the stated bounds", "schedules beyond the preemption bound"}},
